@@ -99,14 +99,14 @@ TECHNIQUE = ("Coq proof (structural induction over templates, a byte-at-a-time p
 RUST_KW = {"type", "for", "as", "loop", "async"}
 VOID = ["br", "hr", "img", "input", "meta", "link", "wbr", "source", "area", "base", "col", "embed", "track"]
 NORMAL = ["div", "p", "span", "section", "ul", "li", "b", "i", "em", "h1", "a", "button", "label", "pre", "main",
-          "article", "strong", "td", "option", "title"]
+          "article", "strong", "td", "option", "title", "form"]
 RAW = ["script", "style", "noscript", "textarea"]
 SVG_ROOT = "svg"
 SVG_CHILD = ["g", "circle", "rect", "path", "text", "line", "defs", "tspan", "clipPath", "linearGradient"]
 CUSTOM = ["my-el", "x-widget-2"]
 
 GLOBAL_ATTRS = ["id", "title", "lang", "dir", "role", "tabindex", "accesskey", "slot", "data-a", "data-b-c",
-                "aria-label", "aria-hidden"]
+                "aria-label", "aria-hidden", "aria_current"]
 GLOBAL_BOOL = ["hidden", "inert", "autofocus", "itemscope", "data-flag"]
 ELEM_ATTRS = {
     "input": (["type", "value", "name", "placeholder"], ["disabled", "checked", "readonly", "required"]),
@@ -116,7 +116,8 @@ ELEM_ATTRS = {
     "button": (["type", "name", "value"], ["disabled"]),
     "option": (["value", "label"], ["selected", "disabled"]),
     "td": (["colspan", "headers"], []),
-    "meta": (["name", "content", "charset"], []),
+    "meta": (["name", "content", "charset", "http_equiv"], []),
+    "form": (["action", "method", "accept_charset"], ["novalidate"]),
     "link": (["rel", "href", "as"], []),
     "script": (["type", "src"], ["async", "defer"]),
     "style": (["media"], []),
@@ -449,6 +450,12 @@ FIXED += [
                                                ["sp", "--accent-color", "red", True], ["sp", "background-color", "blue", False]],
                                         [["t", "x"]]]]]]),
 ]
+FIXED += [
+    ("typed-names", [["e", "div", [], [["e", "meta", [["p", "http_equiv", ["lit", "refresh"]], ["p", "content", ["lit", "1"]]], []]]]]),
+    ("typed-names", [["e", "div", [], [["e", "form", [["p", "accept_charset", ["lit", "utf-8"]]], [["t", "x"]]],
+                                        ["e", "p", [["p", "aria_label", ["lit", "q"]]], [["t", "y"]]],
+                                        ["e", "my-el", [["p", "aria_label", ["lit", "q"]]], [["t", "z"]]]]]]),
+]
 FIXED_ORACLE_ONLY = [
     ("inner-html", [["e", "div", [], [["e", "p", [["p", "inner_html", ["lit", "<b>x</b>"]]], []]]]]),
 ]
@@ -524,7 +531,17 @@ def generate(rng, tier):
 
 
 # ------------------------------------------------------------------------------------------ case encoding
-def enc_attr(a):
+def html_name(tag, name):
+    """the HTML attribute a typed attribute method stands for (tachys html/attribute/key.rs); custom elements and
+    SVG take the name as written (.attr(name, ..))"""
+    if "-" in tag or tag == SVG_ROOT or tag in SVG_CHILD:
+        return name
+    if name in ("http_equiv", "accept_charset") or name.startswith("aria_"):
+        return name.replace("_", "-")
+    return name
+
+
+def enc_attr(a, tag=""):
     k = a[0]
     if k == "p":
         v = a[2]
@@ -532,7 +549,7 @@ def enc_attr(a):
               "num": lambda: [2, v[2]],          # a non-string literal: not static, renders its Display
               "bool": lambda: [3, int(v[1])], "blit": lambda: [3, int(v[1])],
               "opt": lambda: [4] if v[1] is None else [5, v[1]]}[v[0]]()
-        return [0, a[1], av]
+        return [0, html_name(tag, a[1]), av]
     if k == "ct":
         return [1, a[1], 0 if a[2] is None else (2 if a[2] else 1)]
     if k == "cu":
@@ -548,7 +565,7 @@ def enc_node(n):
     if n[0] == "b":
         return [1, n[1]]
     if n[0] == "e":
-        return [2, n[1], [enc_attr(a) for a in n[2]], [enc_node(c) for c in n[3]]]
+        return [2, n[1], [enc_attr(a, n[1]) for a in n[2]], [enc_node(c) for c in n[3]]]
     if n[0] == "f":
         return [3, [enc_node(c) for c in n[1]]]
     raise ValueError("not expressible in the model: %r" % (n[0],))
@@ -824,11 +841,12 @@ def parse_html(s, tolerate_title=False, noscript_html=False):
     return root
 
 
-def expect_attrs(attrs):
+def expect_attrs(attrs, tag=""):
     pairs = []
     for a in attrs:
         k = a[0]
         if k == "p":
+            a = [a[0], html_name(tag, a[1]), a[2]]
             v = a[2]
             if v[0] in ("lit", "str"):
                 pairs.append((a[1], v[1]))
@@ -903,7 +921,7 @@ def expect(tpl, out=None):
                 attrs = [a for a in attrs if a not in inner]
             else:
                 kids = [] if tag in H_VOID else expect(ch)
-            out.append(("elem", tag, expect_attrs(attrs), kids))
+            out.append(("elem", tag, expect_attrs(attrs, tag), kids))
     return out
 
 
